@@ -1105,6 +1105,9 @@ func (env *Zlisp) LeftBindingPower(sx Sexp) (int, error) {
 	case *SexpHash:
 		// an empty {} block that became an empty hash. no-op.
 		return 0, nil
+	case *SexpSentinel:
+		// nil, written (): a literal like the others
+		return 0, nil
 	}
 
 	return 0, fmt.Errorf("LeftBindingPower: unhandled sx :%#v", sx)
